@@ -57,3 +57,166 @@ pub open spec fn stake_dom(s0: StoreView, env: Env, info: MessageInfo, amount: n
     &&& s0.config is Some ==> bech32_hrp(info.sender.0@) == Some(cfg(s0).protocol_chain_config.account_address_prefix@)
 }
 } // verus!
+verus! {
+// ------------------------------------------------------------------ reachable-state facts used as preconditions (C16 DOM)
+/// Well-formedness of the batch table (proved inductive by the C06/C05 lemmas in `world`).
+pub open spec fn batches_wf(s: StoreView) -> bool {
+    &&& s.pending_batch_id is Some ==> s.batches.dom().contains(s.pending_batch_id->Some_0)
+    &&& forall|k: u64| #[trigger] s.batches.dom().contains(k) ==> {
+            let b = s.batches[k];
+            &&& b.id == k
+            &&& b.id < 0x8000_0000_0000_0000
+            &&& b.batch_total_liquid_stake.0 <= AMOUNT_MAX()
+            &&& b.status == BatchStatus::Received ==> b.received_native_unstaked is Some && b.received_native_unstaked->Some_0.0 <= AMOUNT_MAX()
+            &&& b.unstake_requests_count is Some ==> b.unstake_requests_count->Some_0 < 0x8000_0000_0000_0000
+        }
+    &&& forall|k: (u64, String)| #[trigger] s.requests.dom().contains(k) ==> {
+            &&& s.batches.dom().contains(k.0)
+            &&& s.requests[k].amount.0 <= s.batches[k.0].batch_total_liquid_stake.0
+            &&& s.requests[k].amount.0 > 0
+        }
+}
+
+// ------------------------------------------------------------------ LiquidUnstake
+pub open spec fn unstake_dom(s0: StoreView, amount: nat) -> bool {
+    batches_wf(s0) && 0 < amount <= AMOUNT_MAX()
+}
+pub open spec fn unstake_ok(s0: StoreView) -> bool {
+    s0.config is Some && !cfg(s0).stopped && s0.state is Some && s0.pending_batch_id is Some
+}
+pub open spec fn unstake_request_after(s0: StoreView, sender: String, amount: nat) -> UnstakeRequest {
+    let p = s0.pending_batch_id->Some_0;
+    if s0.requests.dom().contains((p, sender)) {
+        let r = s0.requests[(p, sender)];
+        UnstakeRequest { batch_id: r.batch_id, user: r.user, amount: Uint128((r.amount.0 + amount) as u128) }
+    } else {
+        UnstakeRequest { batch_id: p, user: sender, amount: Uint128(amount as u128) }
+    }
+}
+pub open spec fn unstake_batch_after(s0: StoreView, sender: String, amount: nat) -> Batch {
+    let p = s0.pending_batch_id->Some_0;
+    let b = s0.batches[p];
+    let is_new = !s0.requests.dom().contains((p, sender));
+    Batch {
+        batch_total_liquid_stake: Uint128((b.batch_total_liquid_stake.0 + amount) as u128),
+        unstake_requests_count: if is_new {
+            Some(((match b.unstake_requests_count { Some(c) => c, None => 0u64 }) + 1) as u64)
+        } else { b.unstake_requests_count },
+        ..b
+    }
+}
+} // verus!
+verus! {
+// ------------------------------------------------------------------ SubmitBatch
+pub open spec fn has_request_in(s: StoreView, batch: u64) -> bool {
+    exists|u: String| #[trigger] s.requests.dom().contains((batch, u))
+}
+pub open spec fn submit_ok(s0: StoreView, env: Env) -> bool {
+    &&& s0.config is Some && !cfg(s0).stopped
+    &&& s0.pending_batch_id is Some && s0.batches.dom().contains(s0.pending_batch_id->Some_0)
+    &&& ({ let b = s0.batches[s0.pending_batch_id->Some_0];
+        &&& b.next_batch_action_time is Some && now_s(env) >= b.next_batch_action_time->Some_0
+        &&& has_request_in(s0, s0.pending_batch_id->Some_0)
+        &&& s0.state is Some
+        &&& st(s0).total_liquid_stake_token.0 >= b.batch_total_liquid_stake.0 })
+    &&& !period_overflow(s0, env)
+}
+pub open spec fn submit_unbond(s0: StoreView) -> nat {
+    let b = s0.batches[s0.pending_batch_id->Some_0];
+    unbond_of(st(s0).total_native_token.0 as nat, st(s0).total_liquid_stake_token.0 as nat, b.batch_total_liquid_stake.0 as nat)
+}
+pub open spec fn submit_store(s0: StoreView, env: Env) -> StoreView {
+    let p = s0.pending_batch_id->Some_0;
+    let b = s0.batches[p];
+    let u = submit_unbond(s0);
+    let nb = Batch { id: (b.id + 1) as u64, batch_total_liquid_stake: Uint128(0),
+        next_batch_action_time: Some((now_s(env) + cfg(s0).batch_period) as u64),
+        status: BatchStatus::Pending, expected_native_unstaked: None, received_native_unstaked: None,
+        liquid_unstake_requests: None, unstake_requests_count: Some(0) };
+    let ob = Batch { expected_native_unstaked: Some(Uint128(u as u128)), status: BatchStatus::Submitted,
+        next_batch_action_time: Some((now_s(env) + cfg(s0).native_chain_config.unbonding_period) as u64), ..b };
+    StoreView {
+        batches: s0.batches.insert(nb.id, nb).insert(b.id, ob),
+        pending_batch_id: Some(nb.id),
+        state: Some(State {
+            total_native_token: Uint128((st(s0).total_native_token.0 - u) as u128),
+            total_liquid_stake_token: Uint128((st(s0).total_liquid_stake_token.0 - b.batch_total_liquid_stake.0) as u128),
+            ..st(s0) }),
+        ..s0 }
+}
+/// D9 region: the unvalidated periods overflow the u64 second counter
+pub open spec fn period_overflow(s0: StoreView, env: Env) -> bool {
+    s0.config is Some && (now_s(env) + cfg(s0).batch_period > u64::MAX
+        || now_s(env) + cfg(s0).native_chain_config.unbonding_period > u64::MAX)
+}
+pub open spec fn submit_dom(s0: StoreView, env: Env) -> bool {
+    &&& env_ok(env)
+    &&& batches_wf(s0)
+    &&& s0.state is Some ==> state_dom(s0)
+}
+
+// ------------------------------------------------------------------ Withdraw
+pub open spec fn withdraw_ok(s0: StoreView, info: MessageInfo, batch_id: u64) -> bool {
+    &&& s0.config is Some && !cfg(s0).stopped
+    &&& s0.batches.dom().contains(batch_id)
+    &&& s0.batches[batch_id].status == BatchStatus::Received
+    &&& s0.requests.dom().contains((s0.batches[batch_id].id, info.sender.0))
+}
+pub open spec fn withdraw_payout(s0: StoreView, info: MessageInfo, batch_id: u64) -> nat {
+    let b = s0.batches[batch_id];
+    (b.received_native_unstaked->Some_0.0 as nat * s0.requests[(b.id, info.sender.0)].amount.0 as nat)
+        / (b.batch_total_liquid_stake.0 as nat)
+}
+pub open spec fn withdraw_dom(s0: StoreView) -> bool {
+    &&& batches_wf(s0)
+    &&& s0.state is Some && state_dom(s0)
+}
+} // verus!
+verus! {
+// ------------------------------------------------------------------ ReceiveRewards
+pub open spec fn reward_fee(c: Config, amount: nat) -> nat {
+    (c.protocol_fee_config.dao_treasury_fee.0 as nat * amount) / 100000
+}
+pub open spec fn rewards_ok(s0: StoreView, env: Env, info: MessageInfo) -> bool {
+    let c = cfg(s0);
+    let coin = first_coin(info.funds@, c.protocol_chain_config.ibc_token_denom@);
+    &&& s0.config is Some && s0.state is Some && !c.stopped
+    &&& st(s0).total_liquid_stake_token.0 != 0
+    &&& hooks_account(c, c.native_chain_config.reward_collector_address) == Some(info.sender.0@)
+    &&& coin is Some
+    &&& reward_fee(c, coin->Some_0.amount.0 as nat) <= coin->Some_0.amount.0
+    &&& c.protocol_chain_config.ibc_channel_id@.len() > 0
+    &&& !s0.waiting.dom().contains(default_sub_id(env) as u64)
+}
+pub open spec fn rewards_state(s0: StoreView, amount: nat) -> State {
+    let c = cfg(s0); let fee = reward_fee(c, amount);
+    State {
+        total_native_token: Uint128((st(s0).total_native_token.0 + (amount - fee)) as u128),
+        total_reward_amount: Uint128((st(s0).total_reward_amount.0 + amount) as u128),
+        total_fees: if c.protocol_fee_config.treasury_address is None { Uint128((st(s0).total_fees.0 + fee) as u128) } else { st(s0).total_fees },
+        ..st(s0)
+    }
+}
+pub open spec fn rewards_dom(s0: StoreView, env: Env, info: MessageInfo) -> bool {
+    &&& env_ok(env)
+    &&& s0.state is Some ==> state_dom(s0)
+    &&& forall|i: int| 0 <= i < info.funds@.len() ==> (#[trigger] info.funds@[i]).amount.0 <= AMOUNT_MAX()
+}
+/// D12 region: the unvalidated fee rate overflows 128 bits
+pub open spec fn fee_overflow(s0: StoreView, info: MessageInfo) -> bool {
+    s0.config is Some && exists|i: int| 0 <= i < info.funds@.len()
+        && reward_fee(cfg(s0), (#[trigger] info.funds@[i]).amount.0 as nat) > u128::MAX
+}
+
+// ------------------------------------------------------------------ ReceiveUnstakedTokens
+pub open spec fn unstaked_ok(s0: StoreView, env: Env, info: MessageInfo, batch_id: u64) -> bool {
+    let c = cfg(s0);
+    &&& s0.config is Some && !c.stopped
+    &&& hooks_account(c, c.native_chain_config.staker_address) == Some(info.sender.0@)
+    &&& first_coin(info.funds@, c.protocol_chain_config.ibc_token_denom@) is Some
+    &&& s0.batches.dom().contains(batch_id)
+    &&& s0.batches[batch_id].status == BatchStatus::Submitted
+    &&& s0.batches[batch_id].next_batch_action_time is Some
+    &&& s0.batches[batch_id].next_batch_action_time->Some_0 <= now_s(env)
+}
+} // verus!
